@@ -1,6 +1,7 @@
 import TbotVerif.Props.CtxExec
 import TbotVerif.Props.CtxLeak6
 import TbotVerif.Props.CtxTrace4
+import TbotVerif.Props.CtxTrace5
 set_option linter.unusedSimpArgs false
 set_option linter.unusedVariables false
 /-! # C14 — the context never has two live instances of a machine and never leaks one
@@ -123,6 +124,23 @@ theorem I4 (cs : Case) (hwf : cs.cfg.wf = true) : specI4 cs (run cs).reverse = t
     simp only [St.log, always_cons, condRelease, Bool.true_and]
     exact this.2.good
   · simp [hk]
+
+/-- **I5** — after the outermost `with ctx` has been left (normally or by an exception, including
+    exceptions raised by a machine teardown) with no request of the program still open, no object
+    is up.  Every well-formed program, configuration and fault oracle. -/
+theorem I5 (cs : Case) (hwf : cs.wf = true) : specI5 (run cs).reverse = true := by
+  obtain ⟨hc, hp⟩ := wf_parts hwf
+  unfold specI5
+  rw [run_reverse]
+  have h3 : Inv3 (fun _ => 0) (initSt cs.ka cs.roe) := by
+    constructor <;> simp [initSt, opens]
+  have hl : L5 ([] : List Frame).length (initSt cs.ka cs.roe) := by
+    constructor <;> simp [initSt, depth, opensP]
+  have := execBlock_5 cs.cfg (depsBelow_of_wf hc) cs.prog _ Fa [] hp (inv_init cs.ka cs.roe)
+    (inv2_init cs.cfg.n cs.ka cs.roe) h3 (fun _ _ c => rfl) hl
+  unfold runSt
+  simp only [St.log, always_cons, condLeave, Bool.true_and]
+  exact this.2.good
 
 /-! ### non-vacuity -/
 
